@@ -220,6 +220,28 @@ Example upscale_example :
   = ([1; 1]%nat, [1; 3]%nat, (1, 2)%nat).
 Proof. vm_compute. reflexivity. Qed.
 
+(* ... and the same for dmm: from the pixel where the trace stops the flow path reaches, inside the same cell, a pit or a pixel
+   on the cell edge (a pixel whose downstream pixel lies in another cell is on the edge) -- a candidate exit pixel of that
+   cell with at least the same upstream area -- so the upstream area of the exit pixel strictly increases along every
+   link that is not a pit.  All three non-iterative methods return loop-free networks. *)
+Theorem dmm_loopfree : forall sds upa subncol cs nrow ncol, 0 < cs -> 0 < subncol -> subncol <= ncol * cs ->
+  (forall t, t < length sds -> sd sds t < length sds -> sd sds (sd sds t) < length sds) ->
+  (forall t, t < length sds -> sd sds t < length sds -> in_d8 t (sd sds t) subncol = true) ->
+  (forall t, t < length sds -> sd sds t < length sds -> (0 < nth t upa 0)%Z) ->
+  (forall t, t < length sds -> sd sds t < length sds -> sd sds t <> t -> (nth t upa 0 < nth (sd sds t) upa 0)%Z) ->
+  forall idx k, idx < nrow * ncol ->
+  nth idx (repcell sds upa subncol cs nrow ncol (fun t => cell_edge t subncol cs)) (length sds) < length sds -> 1 <= k ->
+  (forall j, j <= k -> diter sds upa subncol cs nrow ncol j idx < nrow * ncol) ->
+  diter sds upa subncol cs nrow ncol k idx = idx ->
+  exists j, j < k /\ dnext sds upa subncol cs nrow ncol (diter sds upa subncol cs nrow ncol j idx) = diter sds upa subncol cs nrow ncol j idx.
+Proof. exact UpscaleLoopfree.dmm_loopfree. Qed.
+Print Assumptions dmm_loopfree.
+
+Example dnext_is_dmm_nextidx : forall sds upa subncol cs nrow ncol idx,
+  dnext sds upa subncol cs nrow ncol idx =
+  nth idx (dmm_nextidx sds subncol cs nrow ncol (repcell sds upa subncol cs nrow ncol (fun t => cell_edge t subncol cs))) (nrow * ncol).
+Proof. reflexivity. Qed.
+
 (* the hypotheses of the loop-freeness theorems are satisfiable: the same raster with an upstream area that is positive
    and strictly increasing downstream *)
 Example increasing_area_example :
